@@ -617,7 +617,10 @@ func (s *nsState) apply(op nsOp, check bool, hist []nsOp) {
 		n := s.model[h]
 		return n == nil || n.id != s.objAt[h]
 	}
-	if v.ok && (dangling(op.H) || dangling(op.H2)) {
+	dang := dangling(op.H) || dangling(op.H2)
+	if dang {
+		// neither success nor failure is judged; a success may have any effect the path-based
+		// server gives it (the model is resynchronised from the backend below, silently)
 		v.ok, v.either = false, true
 	}
 	before := nsBackendDump(s.main.e.fs)
@@ -679,8 +682,10 @@ func (s *nsState) apply(op nsOp, check bool, hist []nsOp) {
 				fmt.Sprintf("%+v replied %s but the backend tree changed:\nbefore:\n%safter:\n%s", op, wire.StatName(r.status), before, after))
 		}
 		if md := s.modelDump(); md != after {
-			bad(fmt.Sprintf("backend-tree-differs-from-model|op=%s|replied=%s", op.Kind, wire.StatName(r.status)),
-				fmt.Sprintf("after %+v (%s):\nmodel:\n%sbackend:\n%s", op, wire.StatName(r.status), md, after))
+			if !dang {
+				bad(fmt.Sprintf("backend-tree-differs-from-model|op=%s|replied=%s", op.Kind, wire.StatName(r.status)),
+					fmt.Sprintf("after %+v (%s):\nmodel:\n%sbackend:\n%s", op, wire.StatName(r.status), md, after))
+			}
 			// continue from the backend's tree
 			s.model = map[string]*nsNode{}
 			for _, n := range s.main.e.fs.Dump() {
